@@ -561,7 +561,7 @@ template<class P> static void run_termset(P& p, const std::vector<TermSpec>& ts,
 static void run_c04() {
     g_list = make_list_parser();
     std::vector<TermSpec> pool = c04_pool(cfg.pool);
-    std::vector<std::string> inputs; gen_inputs(std::string("abc \n\t\r\v", 8) + std::string(1, '\0'), cfg.maxlen, inputs);
+    std::vector<std::string> inputs; gen_inputs(std::string("abc \n\t\r\v\f", 9) + std::string(1, '\0'), cfg.maxlen, inputs);
     long idx = 0;
     std::vector<std::vector<TermSpec>> sets;
     for (size_t i = 0; i < pool.size(); ++i) sets.push_back({pool[i]});
@@ -614,7 +614,7 @@ static void run_c10() {
         {{'c', "x"}, {'s', "xqq"}, {'c', ";"}},
         {{'c', "q"}, {'s', "q\nq;"}, {'c', ";"}},
     };
-    std::vector<std::string> inputs; gen_inputs(std::string("xq; \t\r\n"), cfg.maxlen, inputs);
+    std::vector<std::string> inputs; gen_inputs(std::string("xq; \t\r\n\x80"), cfg.maxlen, inputs);   // 0x80: a UTF-8 continuation byte is one column like every other byte
     long idx = 0;
     for (auto& ts : sets) for (int gk = 0; gk < 2; ++gk) {
         if ((idx++ % cfg.nshards) != cfg.shard) continue;
